@@ -4,9 +4,10 @@ import Rg.Base
 
 * `ir_loader.go:loadSyntaxRule` — a rule is appended to the bucket(s) `dst rootTag` (list tags fan out);
 * `gorule.go:mergeRuleSets/appendScopedRuleSet` — per bucket, append in order;
-* `runner.go:runRules` — per visited node, the rules of the node's bucket in order; `matched` is the
-  result of the *last* `handleMatch` callback gogrep made for that rule; `break` iff
-  `matched && !multiMatchTags[tag]`.
+* `runner.go:runRules` — per visited node, the rules of the node's bucket in order; `matched` is set by
+  *any* accepted `handleMatch` callback gogrep made for that rule (since the `fix:` commit; the pinned code
+  assigned `matched = handleMatch(…)`, i.e. kept the verdict of the *last* callback — `runRulesAsIs`);
+  `break` iff `matched && !multiMatchTags[tag]`.
 
 gogrep itself (does the pattern match, how many callbacks) and the filter verdict are oracle inputs:
 `cb rule node : List Bool` = the verdict of `handleMatch` for every callback, in order.
@@ -45,8 +46,17 @@ def runRules (multi : Bool) (cb : Rule → List Bool) : List Rule → List Nat
   | r :: rs =>
     let outs := cb r
     let reps := (outs.filter id).map (fun _ => r.id)
-    let matched := outs.getLast?.getD false
+    let matched := outs.any id
     reps ++ (if matched && !multi then [] else runRules multi cb rs)
+
+/-- the pinned code: `matched = rr.handleMatch(rule, m)` inside the callback keeps the last verdict only -/
+def runRulesAsIs (multi : Bool) (cb : Rule → List Bool) : List Rule → List Nat
+  | [] => []
+  | r :: rs =>
+    let outs := cb r
+    let reps := (outs.filter id).map (fun _ => r.id)
+    let matched := outs.getLast?.getD false
+    reps ++ (if matched && !multi then [] else runRulesAsIs multi cb rs)
 
 /-- a whole run over the visits `(node id, tag)` of a file: `(node id, rule id)` in delivery order -/
 def runOver (dst : Nat → List Nat) (multi : Nat → Bool) (hist : List (List Rule))
